@@ -4,6 +4,7 @@
 import PowHsm.Spec.C05
 import PowHsm.Proofs.Chunks
 import PowHsm.Proofs.Blocks
+import PowHsm.Proofs.RlpCodec
 namespace PowHsm
 namespace Props.C05
 open Dongle M
@@ -225,6 +226,37 @@ theorem brothers_in_order (h : Hashes) (c : BlockCfg) :
 
 /-- non-vacuity: both protocol flavours keep the brother operations apart from the main stream -/
 example : Distinct advCfg ∧ Distinct updCfg := ⟨advCfg_distinct, updCfg_distinct⟩
+
+/-! ### the RLP codec, the announced size and the ancestor-update form -/
+
+/-- **`rlp.decode(rlp.encode(x)) == x`** for the model of pyrlp's strict decoder and raw encoder:
+    every item (any nesting, any field sizes across the short / long forms) whose encoding is
+    shorter than 2^64 bytes decodes back to itself — by induction on the decoder's fuel -/
+theorem rlp_roundtrip (x : Rlp) (h : (Rlp.enc x).length < 2 ^ 64) : Rlp.decode (Rlp.enc x) = some x :=
+  Rlp.decode_enc x h
+
+/-- **the metadata matches the block**: the merge-mining payload size announced for a header is
+    the length of the RLP payload of its field list without the merge-mining fields — on both
+    sides of every RLP length-form boundary (55/56, 255/256, 65535/65536, …) -/
+theorem announced_size_is_payload_length (xs : List Rlp) (h : (Rlp.encList xs).length < 2 ^ 64) :
+    Block.listPayloadLength (Rlp.enc (.list xs)) = some (Rlp.encList xs).length :=
+  Block.listPayloadLength_enc xs h
+
+/-- **for ancestor updates the merge-mining fields are removed without changing the block's
+    hash**: the form sent to the device (`remove_mm_fields_if_present` leaving the BTC header) is a
+    fixed point of that removal, so the block hash — Keccak-256 of that form, for any `keccak` — of
+    what is sent equals the block hash of what the client gave -/
+theorem mm_removal_keeps_hash (keccak : Bytes → Bytes) (raw e : Bytes)
+    (h : Block.removeMM raw true = some e) (hlen : e.length < 2 ^ 64) :
+    Block.blockHash keccak e = Block.blockHash keccak raw := by
+  unfold Block.blockHash
+  rw [h, Block.removeMM_idempotent raw e h hlen]
+
+/-- non-vacuity: a 17-field header of one-byte fields -/
+example :
+    let x : Rlp := .list (List.replicate 17 (.str [7]))
+    (Rlp.enc x).length < 2 ^ 64 ∧ Block.removeMM (Rlp.enc x) true = some (Rlp.enc x) := by
+  decide +kernel
 
 end Props.C05
 end PowHsm
